@@ -15,6 +15,7 @@ import (
 type pathFact struct {
 	Cond ast.Expr
 	Val  bool
+	At   int // number of path nodes executed when the condition was evaluated (the condition is node At-1)
 }
 
 type cfgPath struct {
@@ -54,22 +55,28 @@ const maxPaths = 4096
 
 // enumPaths enumerates the acyclic entry-to-exit paths of body.
 func enumPaths(info *types.Info, body *ast.BlockStmt) (paths []cfgPath, truncated bool) {
+	return enumPathsN(info, body, 1)
+}
+
+// enumPathsN lets every block occur up to maxVisits times on a path (2 = loops are taken zero, one or
+// two times).
+func enumPathsN(info *types.Info, body *ast.BlockStmt, maxVisits int) (paths []cfgPath, truncated bool) {
 	mayReturn := neverReturns(info)
 	g := cfg.New(body, mayReturn)
 	if len(g.Blocks) == 0 {
 		return nil, false
 	}
-	var walk func(b *cfg.Block, nodes []ast.Node, facts []pathFact, visited map[int32]bool)
-	walk = func(b *cfg.Block, nodes []ast.Node, facts []pathFact, visited map[int32]bool) {
+	var walk func(b *cfg.Block, nodes []ast.Node, facts []pathFact, visited map[int32]int)
+	walk = func(b *cfg.Block, nodes []ast.Node, facts []pathFact, visited map[int32]int) {
 		if len(paths) >= maxPaths {
 			truncated = true
 			return
 		}
-		if visited[b.Index] {
-			return // back edge: the loop was already taken once on this path
+		if visited[b.Index] >= maxVisits {
+			return // back edge: the loop was already taken on this path
 		}
-		visited[b.Index] = true
-		defer delete(visited, b.Index)
+		visited[b.Index]++
+		defer func() { visited[b.Index]-- }()
 		nodes = append(nodes[:len(nodes):len(nodes)], b.Nodes...)
 		abnormal := false
 		for _, n := range b.Nodes {
@@ -89,14 +96,14 @@ func enumPaths(info *types.Info, body *ast.BlockStmt) (paths []cfgPath, truncate
 		}
 		if len(b.Succs) == 2 && len(b.Nodes) > 0 {
 			if cond, ok := b.Nodes[len(b.Nodes)-1].(ast.Expr); ok {
-				walk(b.Succs[0], nodes, append(facts[:len(facts):len(facts)], pathFact{cond, true}), visited)
-				walk(b.Succs[1], nodes, append(facts[:len(facts):len(facts)], pathFact{cond, false}), visited)
+				walk(b.Succs[0], nodes, append(facts[:len(facts):len(facts)], pathFact{cond, true, len(nodes)}), visited)
+				walk(b.Succs[1], nodes, append(facts[:len(facts):len(facts)], pathFact{cond, false, len(nodes)}), visited)
 				return
 			}
 		}
 		any := false
 		for _, s := range b.Succs {
-			if !visited[s.Index] {
+			if visited[s.Index] < maxVisits {
 				any = true
 				walk(s, nodes, facts, visited)
 			}
@@ -105,7 +112,7 @@ func enumPaths(info *types.Info, body *ast.BlockStmt) (paths []cfgPath, truncate
 			// only back edges remain: cannot happen on an exit path; drop
 		}
 	}
-	walk(g.Blocks[0], nil, nil, map[int32]bool{})
+	walk(g.Blocks[0], nil, nil, map[int32]int{})
 	return paths, truncated
 }
 
